@@ -34,7 +34,7 @@ def parseBs (pend : List (Nat × Nat)) (s : String) : Option (List Bt) :=
       pure ⟨mem, gas⟩
     | _ => none
 
-def handle (op : String) (args : List String) (impl : String) : Option Verdict :=
+def handleCore (op : String) (args : List String) (impl : String) : Option Verdict :=
   match op, args with
   | "batches", [cap, tg, ps] => some <| Id.run do
     let some cap := cap.toNat? | return bad
@@ -98,13 +98,19 @@ def handle (op : String) (args : List String) (impl : String) : Option Verdict :
       let sids := implItems.map fun it => (it.splitOn "=").headD ""
       let mems := implItems.map fun it => ((it.splitOn "=").getD 1 "-")
       let nonEmpty := mems.all (· ≠ "-")
-      let distinct := sids.eraseDups.length == sids.length
+      -- the session ids are observed through the log line that announces a session; when the source does not log them
+      -- (no such line any more) every id reads `?`: the id clauses are then not observable HERE (they are checked on the
+      -- ids the signing processes really run under, op `sigsession`) and only the batch contents are judged
+      let unobserved := implItems ≠ [] && sids.all (· == "?")
+      let distinct := unobserved || sids.eraseDups.length == sids.length
       -- every session id is `<message id>-<decimal batch position>`
-      let wellFormed := sids.all fun sid =>
+      let wellFormed := unobserved || sids.all fun sid =>
         sid.startsWith (msgId ++ "-") && ((sid.drop (msgId.length + 1)).toString.toNat?).isSome
       let allIdx := (mems.filterMap natList).flatten
       let part := allIdx.mergeSort == (pending tg (psx.map (·.1))).map (·.1)
-      return ⟨m, nonEmpty && distinct && wellFormed && part && impl != "err", s!"exec:signed={min (signed msgId bs).length 3}"⟩
+      let m' := if unobserved then ";".intercalate (((items m ";").map fun it => "?=" ++ ((it.splitOn "=").getD 1 "-")).mergeSort (· ≤ ·)) else m
+      return ⟨m', nonEmpty && distinct && wellFormed && part && impl != "err",
+        s!"exec:signed={min (signed msgId bs).length 3}{if unobserved then ":sid-unobserved" else ""}"⟩
   -- the ids the EVM signing processes actually RUN under (real NewSigning + real coordinator; op shared with C19):
   -- `<messageID>-<batch index>` for every non-empty batch, pairwise distinct
   | "sigsession", [cap, tg, msgId, ps] => some <| Id.run do
@@ -126,5 +132,13 @@ def handle (op : String) (args : List String) (impl : String) : Option Verdict :
     let m := sessionId msgId i
     return ⟨m, m == impl, "session"⟩
   | _, _ => none
+
+def handle (op : String) (args : List String) (impl : String) : Option Verdict :=
+  match op, args with
+  | "submitlate", [cap, tg, ps, late] =>
+    -- members reported executed only AFTER batching do not change what is submitted: same model, same predicate
+    (handleCore "submit" [cap, tg, ps] impl).map fun v =>
+      { v with tag := "late=" ++ toString (late != "-") ++ ":" ++ v.tag }
+  | _, _ => handleCore op args impl
 
 end Sygma.Drv.C14
